@@ -1,11 +1,14 @@
 //! vsim: deterministic simulation with fault injection for rust-vmm/vhost.
 #![allow(dead_code)]
 
+mod fdu;
 mod json;
+mod rec;
 mod rng;
 mod runner;
 mod scen;
 mod sched;
+mod spec;
 
 use scen::Tier;
 
